@@ -64,7 +64,7 @@ Proof. split; vm_compute; reflexivity. Qed.
 (* WITH w AS (SELECT * FROM t) SELECT a, COUNT( * ) AS n, * FROM w GROUP BY a ORDER BY a DESC LIMIT 5 *)
 Definition q3 : stmt :=
   SSelect {| s_with := [("w", SSelect (sel (FTable ["t"] "") [IStar]))]; s_from := FTable ["w"] "";
-             s_where := None; s_group := ["a"]; s_having := None;
+             s_where := None; s_group := [gcol "a"]; s_having := None;
              s_items := [IExpr (ECol ["a"]) "a"; IExpr (EAgg ACount None) "n"; IStar];
              s_distinct := false; s_order := [(["a"], false)]; s_limit := Some 5%Z; s_offset := None |}.
 
